@@ -91,12 +91,33 @@ def rule_made_masks(prog, rep, R="C09.strict"):
                 and wkw["if_true"][2] == "weight" and wkw["if_true"][1][0] == "mlp_layer" and wkw["if_true"][1][2] == C(i)
             rep.check(ok_w, R, site, k + ":wrapper", "Where(mask, layer.weight, 0)",
                       f"wrapper is {show(rep_val, 200)}")
+            if mask is not None and mask[0] == "ite" and mask[2][0] == "call" and mask[3][0] == "call" \
+                    and mask[2][1] == RBM and mask[3][1] == RBM:
+                # the strictness chosen by a test: rank_based_mask(.., eq=E1) if c else rank_based_mask(.., eq=E2)
+                a_, b_ = dict(mask[2][3]), dict(mask[3][3])
+                if len(mask[2][2]) == len(mask[3][2]) == 0 and {k_: v_ for k_, v_ in a_.items() if k_ != "eq"} == \
+                        {k_: v_ for k_, v_ in b_.items() if k_ != "eq"}:
+                    e1, e2 = a_.get("eq", C(False)), b_.get("eq", C(False))
+                    a_["eq"] = e1 if e1 == e2 else ("ite", mask[1], e1, e2)
+                    mask = ("call", RBM, (), tuple(sorted(a_.items())))
             if mask is None or mask[0] != "call" or mask[1] != RBM:
                 rep.undecided(R, site, k + ":mask", f"mask is {show(mask, 160) if mask else None}")
                 continue
             mkw = dict(mask[3])
             last = i == n - 1
             eq = mkw.get("eq", C(False))
+            SIZES = ("out_features", "in_features", "out_size", "in_size", "width_size", "shape", "size")
+            if eq[0] == "ite" and eq[1][0] == "cmp" and all(
+                    any(s_[0] == "attr" and s_[2] in SIZES for s_ in walk(side)) for side in eq[1][2:4]):
+                # which comparison a layer gets must follow from its position; layer sizes are free parameters (hidden
+                # width, number of transformer parameters), so a test on them coincides with the position only for
+                # some configurations
+                rep.violated(R, site, k + (":strict(>)" if last else ":non-strict(>=)"),
+                             f"layer {i} of {n} (depth {depth}) chooses between the strict and the non-strict rank comparison "
+                             f"by the size test {show(eq[1], 120)}: sizes are free (e.g. hidden width == number of outputs), "
+                             f"so a hidden layer can get the strict mask (permitted dependencies lost) or the last layer "
+                             f"the non-strict one")
+                continue
             rep.check(eq == C(not last), R, site, k + (":strict(>)" if last else ":non-strict(>=)"),
                       f"eq={eq[1] if is_const(eq) else show(eq)}",
                       f"layer {i} of {n} (depth {depth}) compares ranks with eq={show(eq)}: " + (
